@@ -35,6 +35,7 @@ type recAction struct {
 	tryParam interface{}
 	invs     []c05Inv
 	failNext bool
+	boolNext bool // the boolean the user method returns (independent of its error)
 }
 
 func (a *recAction) Prepare(ctx context.Context, params interface{}) (bool, error) {
@@ -60,11 +61,11 @@ func (a *recAction) record(kind string, bac *tm.BusinessActionContext) error {
 }
 func (a *recAction) Commit(ctx context.Context, bac *tm.BusinessActionContext) (bool, error) {
 	err := a.record("C", bac)
-	return err == nil, err
+	return a.boolNext, err
 }
 func (a *recAction) Rollback(ctx context.Context, bac *tm.BusinessActionContext) (bool, error) {
 	err := a.record("R", bac)
-	return err == nil, err
+	return a.boolNext, err
 }
 func (a *recAction) GetActionName() string { return a.name }
 
@@ -398,6 +399,7 @@ func runC05(c *Ctx) {
 			if target != nil {
 				target.mu.Lock()
 				target.failNext = uf
+				target.boolNext = r.Bool() // all four (bool, error) shapes: only the error decides the status
 				before := len(target.invs)
 				target.mu.Unlock()
 				_ = before
@@ -421,6 +423,22 @@ func runC05(c *Ctx) {
 				ufTok = "1"
 			}
 			toks = append(toks, fmt.Sprintf("q:%d:%s:%s:%s:%s", msgID, kind, res, dk, ufTok))
+			// oracle for this request: a success status iff resource known, data readable, no user error
+			wantOK := actions[res] != nil && dk != "m" && !uf
+			gotOK, gotAny := false, 0
+			for _, l := range coord.Snapshot() {
+				switch rb := l.Msg.Body.(type) {
+				case message.BranchCommitResponse:
+					gotAny++
+					gotOK = gotOK || rb.BranchStatus == branch.BranchStatusPhasetwoCommitted
+				case message.BranchRollbackResponse:
+					gotAny++
+					gotOK = gotOK || rb.BranchStatus == branch.BranchStatusPhasetwoRollbacked
+				}
+			}
+			if class == "" && (gotOK != wantOK || gotAny > 1) {
+				class, detail = "phase_two_status", fmt.Sprintf("request %s %s data=%s userFails=%v: success status reported=%v (responses %d), wanted %v", kind, res, dk, uf, gotOK, gotAny, wantOK)
+			}
 			for an2, a := range actions {
 				a.mu.Lock()
 				for _, inv := range a.invs {
